@@ -14,6 +14,7 @@ import (
 	"encoding/json"
 	"flag"
 	"fmt"
+	"hash/fnv"
 	"os"
 	"time"
 
@@ -170,7 +171,14 @@ func (s *e2eSys) cmdFor(u *AbsUpdate) model.CmdType {
 	cmd := model.CmdType{}
 	cmd.SetDataForFunction(s.ad.fn(), s.ad.mk(u.Data))
 	fp, fd := buildFilters(s.ad, u)
-	// delete filter first, as the stack itself builds it
+	// the order of the filter elements of a command is not prescribed: delete filter first, as the stack itself builds
+	// it, or the partial filter first (decided by a hash of the update, so that a case is reproducible)
+	h := fnv.New32a()
+	h.Write([]byte(ser(u)))
+	if fp != nil && fd != nil && h.Sum32()%2 == 1 {
+		cmd.Filter = append(cmd.Filter, *fp, *fd)
+		fp, fd = nil, nil
+	}
 	if fd != nil {
 		cmd.Filter = append(cmd.Filter, *fd)
 	}
@@ -257,14 +265,26 @@ func listE2E(args []string) {
 				}()
 				if u.Remote {
 					line.Path = "write"
-					ctr := s.send(model.CmdClassifierTypeWrite, s.paddr(1, 1), s.srv.Address(), true, nil, s.cmdFor(u))
+					// one write in three does not ask for an acknowledgement: a rejected write is answered with an error
+					// result all the same, an accepted one with nothing (then "accepted" is what the missing result says,
+					// and the store must show it)
+					hh := fnv.New32a()
+					hh.Write([]byte(ser(u)))
+					ack := hh.Sum32()%3 != 0
+					ctr := s.send(model.CmdClassifierTypeWrite, s.paddr(1, 1), s.srv.Address(), ack, nil, s.cmdFor(u))
 					switch resultFor(s.out(), ctr) {
 					case 1:
 						line.Ok = true
+						if !ack {
+							line.Panic = "success result although no acknowledgement was requested"
+						}
 					case 2:
 						line.Ok = false
 					default:
-						line.Panic = "no result for the write"
+						line.Ok = true
+						if ack {
+							line.Panic = "no result for the write"
+						}
 					}
 				} else {
 					line.Path = "local"
